@@ -1,9 +1,135 @@
 import UvModel.DriverUtil
-/-! line-protocol driver modes for C14 (stub: no modes yet) -/
+import UvModel.IoWatch
+/-! line-protocol driver for C14 (`uvdriver iowatch`); the other side is harness/c14_sim.c -/
 namespace Drivers.C14
-open UvModel.DriverUtil
+open UvModel.DriverUtil UvModel.IoWatch
 
-/-- (mode name, action).  `uvdriver <mode>` runs the action (normally `runLines init step`). -/
-def modes : List (String × IO Unit) := []
+structure DS where
+  s : St := {}
+  script : List ((Nat × Nat) × List Op) := []
+  flushed : Nat := 0
+
+def ctlName : CtlOp → String
+  | .add => "ADD" | .mod => "MOD" | .del => "DEL"
+
+def renderOp : Op → String
+  | .openfd fd k => s!"openfd {fd} {k}"
+  | .closefd fd => s!"closefd {fd}"
+  | .dupfd fd => s!"dupfd {fd}"
+  | .closedup d => s!"closedup {d}"
+  | .peer w fd => s!"peer {w} {fd}"
+  | .pinit fd => s!"pinit {fd}"
+  | .pstart id u => s!"pstart {id} {u.toNat}"
+  | .pstop id => s!"pstop {id}"
+  | .pclose id => s!"pclose {id}"
+  | .ioinit fd => s!"ioinit {fd}"
+  | .iostart id m => s!"iostart {id} {m.toNat}"
+  | .iostop id m => s!"iostop {id} {m.toNat}"
+  | .ioclose id => s!"ioclose {id}"
+  | .iofeed id => s!"iofeed {id}"
+
+def parseOp : List String → Option Op
+  | ["openfd", fd, k] => some (.openfd (nat! fd) (nat! k))
+  | ["closefd", fd] => some (.closefd (nat! fd))
+  | ["dupfd", fd] => some (.dupfd (nat! fd))
+  | ["closedup", d] => some (.closedup (nat! d))
+  | ["peer", w, fd] => some (.peer (nat! w) (nat! fd))
+  | ["pinit", fd] => some (.pinit (nat! fd))
+  | ["pstart", id, u] => some (.pstart (nat! id) (UvEv.ofNat (nat! u)))
+  | ["pstop", id] => some (.pstop (nat! id))
+  | ["pclose", id] => some (.pclose (nat! id))
+  | ["ioinit", fd] => some (.ioinit (nat! fd))
+  | ["iostart", id, m] => some (.iostart (nat! id) (Mask.ofNat (nat! m)))
+  | ["iostop", id, m] => some (.iostop (nat! id) (Mask.ofNat (nat! m)))
+  | ["ioclose", id] => some (.ioclose (nat! id))
+  | ["iofeed", id] => some (.iofeed (nat! id))
+  | _ => none
+
+/-- split a word list at ";" -/
+def splitSemi (ws : List String) : List (List String) :=
+  (ws.foldr (fun w acc => if w = ";" then [] :: acc else
+      match acc with
+      | [] => [[w]]
+      | a :: r => (w :: a) :: r) [[]]).filter (· ≠ [])
+
+def parseEntry (w : String) : List (Option Nat × Mask) :=
+  let (body, rep) := match w.splitOn "*" with
+    | [b, n] => (b, nat! n)
+    | _ => (w, 1)
+  match body.splitOn ":" with
+  | [fd, m] => List.replicate rep (if fd = "-1" then none else some (nat! fd), Mask.ofNat (nat! m))
+  | _ => []
+
+def parseBatches (ws : List String) : List Batch :=
+  let groups := ws.foldr (fun w acc => if w = "|" then [] :: acc else
+      match acc with
+      | [] => [[w]]
+      | a :: r => (w :: a) :: r) [[]]
+  groups.map fun g => (g.map parseEntry).flatten
+
+def rle : List (Option Nat × Mask) → List ((Option Nat × Mask) × Nat)
+  | [] => []
+  | e :: r =>
+    match rle r with
+    | (e', n) :: t => if e' = e then (e', n + 1) :: t else (e, 1) :: (e', n) :: t
+    | [] => [(e, 1)]
+
+def renderBatch (b : Batch) : String :=
+  String.join ((rle b).map fun ((fd, m), n) =>
+    let f := match fd with | some f => toString f | none => "-1"
+    s!" {f}:{m.toNat}" ++ (if n > 1 then s!"*{n}" else ""))
+
+def idList (l : List Nat) : String := ",".intercalate (l.map toString)
+
+def renderEv : Ev → String
+  | .op o => "op " ++ renderOp o
+  | .ret r => s!"ret {r}"
+  | .refused => "refused"
+  | .newId id => s!"new {id}"
+  | .ctl op fd m r => s!"env epoll_ctl {ctlName op} {fd} {m.toNat} -> {r}"
+  | .cbPoll id st ev => s!"cb poll {id} {st} {ev.toNat}"
+  | .cbIo id ev => s!"cb io {id} {ev.toNat}"
+  | .cbClose id => s!"cb close {id}"
+  | .block t0 it =>
+    s!"env pwait block={if t0 then 0 else 1} interest" ++ String.join (it.map fun (fd, m) => s!" {fd}:{m.toNat}")
+  | .batch b => "env poll ->" ++ renderBatch b
+  | .obs nfds nw wq ws =>
+    s!"obs nfds={nfds} nw={nw} wq={idList wq} ws=" ++
+      ",".intercalate (ws.map fun (id, pe, ev, act) => s!"{id}:{pe.toNat}:{ev.toNat}:{if act then 1 else 0}")
+  | .abort => "abort"
+
+/-- render and drop the log accumulated since the last flush -/
+def flush (d : DS) : DS × List String :=
+  let out := d.s.log.reverse.map renderEv
+  ({ d with s := { d.s with log := [] } }, out)
+
+def getArg (ws : List String) (key : String) : Nat :=
+  match ws.filterMap (fun w => match w.splitOn "=" with | [k, v] => if k = key then some (nat! v) else none | _ => none) with
+  | v :: _ => v
+  | [] => 0
+
+def step (d : DS) : List String → DS × List String
+  | [] => (d, [])
+  | "cfg" :: args =>
+    let ring := getArg args "ring"; let internal := getArg args "internal"; let nw := getArg args "nw"
+    ({ s := { ring := ring == 1, internal := internal, watchers := List.replicate nw none }, script := [] },
+     [s!"cfg ring={ring} internal={internal} nw={nw}"])
+  | "on" :: id :: occ :: rest =>
+    match (splitSemi rest).mapM parseOp with
+    | some ops => ({ d with script := ((nat! id, nat! occ), ops) :: d.script }, [])
+    | none => (d, ["bad-op"])
+  | "run" :: "S" :: rest =>
+    if d.s.aborted then (d, ["aborted"]) else
+    let sc : Script := fun id k => ((d.script.find? (·.1 = (id, k))).map (·.2)).getD []
+    let (d, out) := flush { d with s := run sc d.s (parseBatches rest) }
+    (d, "op run" :: out)
+  | ws =>
+    match parseOp ws with
+    | some o =>
+      if d.s.aborted then (d, ["aborted"]) else
+      flush { d with s := execOp d.s o }
+    | none => (d, ["bad-op"])
+
+def modes : List (String × IO Unit) := [("iowatch", runLines ({} : DS) step)]
 
 end Drivers.C14
